@@ -297,6 +297,11 @@ def handled_classes(fn: ast.AST, subject: Optional[str] = None) -> List[Tuple[as
         if subject is not None and ast.unparse(x) != subject:
             continue
         out.append((c, classes))
+    # `x is None` is the test for the class of None
+    for n in walk_no_nested(fn):
+        if isinstance(n, ast.Compare) and len(n.ops) == 1 and isinstance(n.ops[0], (ast.Is, ast.IsNot)) and isinstance(n.comparators[0], ast.Constant) and n.comparators[0].value is None:
+            if subject is None or ast.unparse(n.left) == subject:
+                out.append((n, [ast.Constant(None)]))
     return out
 
 
